@@ -211,4 +211,45 @@ theorem error_token_is_one_character : Gen.errorTokenLen = none := rfl
 example : lineColAtIndex "é\nxé y".toList 6 = (1, 2) := by decide
 example : indexRangeOfLine "é\nxé y\nz".toList 1 = (3, 9) := by decide
 
+/-! ## tokens partition the text -/
+
+theorem tokenizeAux_partition : ∀ (fuel : Nat) (s : List Char) (acc : List Tok), s.length ≤ fuel →
+    (tokenizeAux fuel s acc).flatMap (·.text) = (acc.reverse).flatMap (·.text) ++ s := by
+  intro fuel
+  induction fuel with
+  | zero =>
+    intro s acc h
+    have : s = [] := List.eq_nil_of_length_eq_zero (by omega)
+    subst this
+    simp [tokenizeAux]
+  | succ f ih =>
+    intro s acc h
+    cases s with
+    | nil => simp [tokenizeAux]
+    | cons c cs =>
+      simp only [tokenizeAux]
+      generalize hn : (if (decideNextToken (c :: cs)).2 == 0 then 1 else (decideNextToken (c :: cs)).2) = n
+      have hn1 : 1 ≤ n := by
+        rw [← hn]; split
+        · omega
+        · rename_i hz; have : (decideNextToken (c :: cs)).2 ≠ 0 := by simpa using hz
+          omega
+      have hlen : ((c :: cs).drop n).length ≤ f := by
+        simp only [List.length_drop, List.length_cons] at h ⊢; omega
+      have := ih ((c :: cs).drop n) (⟨(decideNextToken (c :: cs)).1, (c :: cs).take n⟩ :: acc) hlen
+      simp only [hn] at this ⊢
+      rw [this]
+      simp only [List.reverse_cons, List.flatMap_append, List.flatMap_cons, List.flatMap_nil, List.append_nil, List.append_assoc,
+        List.take_append_drop]
+
+/-- **Every character of a text belongs to exactly one token, in order**: the texts of the
+    tokens, concatenated, are the text.  (So every token span, and every span joined from token
+    spans, starts and ends on a character boundary of the source.) -/
+theorem tokens_partition_text (s : List Char) : (tokenize s).flatMap (·.text) = s := by
+  unfold tokenize
+  have := tokenizeAux_partition s.length s [] (Nat.le_refl _)
+  simpa using this
+
+example : (tokenize "ld é, 1 ; c".toList).map (·.text.length) = [2, 1, 1, 1, 1, 1, 1, 3] := by decide
+
 end Casm.C13
